@@ -74,7 +74,7 @@ class C10(Prop):
             # the other environment is the interesting schedule: `reset` moves the shared contract clock too)
             for env_case in (a, b):
                 if rng.random() < 0.5 and len(env_case["ops"]) > 3:
-                    k = rng.randint(2, len(env_case["ops"]) - 1)
+                    k = rng.randint(1, len(env_case["ops"]) - 1)   # 1 = reset, reset: abandoned after zero steps
                     env_case["ops"] = env_case["ops"][:k] + env_case["ops"]
             sched = ["A"] * len(a["ops"]) + ["B"] * len(b["ops"])
             # random interleaving that keeps each environment's own order
@@ -92,7 +92,8 @@ class C10(Prop):
             return dict(kind="backtest", base=case, cut=rng.randint(1, max(1, len(case["ops"]) - 1)),
                         then=rng.choice(["backtest-shorter", "abandoned-episode", "backtest-same"]))
         mode = rng.choice(["complete", "abandon", "error", "windowed-first", "windowed-first"])
-        return dict(kind="replay", base=case, mode=mode, cut=rng.randint(1, max(1, len(case["ops"]) - 1)))
+        # (cut 0 = the earlier episode is abandoned right after its reset, before any step)
+        return dict(kind="replay", base=case, mode=mode, cut=rng.randint(0, max(1, len(case["ops"]) - 1)))
 
     def run_impl(self, case):
         from tradingenv.contracts import AbstractContract
